@@ -1,15 +1,18 @@
 #!/bin/sh
-# usage: tools/tryseed.sh <patch.diff> <property-id>...   applies the patch to /repo, runs the quick checks, reverts
+# usage: tools/tryseed.sh <patch.diff> <property-id>...
+# applies the patch to a scratch worktree of /repo's HEAD (never to /repo itself), runs the quick
+# checks against it (VERIF_REPO) and removes the worktree
 P="$1"; shift
-cd /repo || exit 2
-git diff --quiet || { echo "/repo is dirty"; exit 2; }
-git apply "$P" || { echo "patch does not apply"; exit 2; }
-GOFLAGS=-mod=mod GOPROXY=off GOSUMDB=off go build ./... || { git checkout -- .; echo "does not build"; exit 2; }
+W=/tmp/wt_seedrun_$$
+git -C /repo worktree add -q --detach $W HEAD || exit 2
+cd $W || exit 2
+git apply "$P" || { echo "patch does not apply"; cd /; git -C /repo worktree remove --force $W; exit 2; }
+GOFLAGS=-mod=mod GOPROXY=off GOSUMDB=off go build ./... || { echo "does not build"; cd /; git -C /repo worktree remove --force $W; exit 2; }
 for id in "$@"; do
   s=$(date +%s)
-  /verif/check $id quick > /tmp/seed_$id.out 2> /tmp/seed_$id.err
+  VERIF_REPO=$W VERIF_EVIDENCE=/tmp/seed_evidence_$$ VERIF_REPLAYS=/tmp/seed_replays_$$ GOSYM_WORK=/tmp/seed_work_$$ /verif/check $id quick > /tmp/seed_$id.out 2> /tmp/seed_$id.err
   rc=$?
   echo "$id rc=$rc $(( $(date +%s) - s ))s: $(grep -c '^VIOLATION' /tmp/seed_$id.out) VIOLATION, $(grep -c '^INCONCLUSIVE' /tmp/seed_$id.out) INCONCLUSIVE"
   grep '^VIOLATION' /tmp/seed_$id.out | cut -c1-260 | head -3
 done
-git checkout -- .
+cd /; git -C /repo worktree remove --force $W; rm -rf /tmp/seed_work_$$
